@@ -32,6 +32,10 @@ func drawCodeImage(t *rapid.T, cfg rvref.Cfg) *c21Image {
 	m := &elfgen.Model{Class64: true, Type: elfgen.ETExec, Machine: elfgen.EMRiscV}
 	nsec := 1 + uniformInt(t, 4, "nsec")
 	addr := uint64(0x10000 + 0x100*uniformInt(t, 8, "base"))
+	if uniformInt(t, 4, "unalignedBase") == 0 {
+		// neither the loader nor the parser requires 4-byte aligned code addresses
+		addr += uint64(1 + uniformInt(t, 3, "misalign"))
+	}
 	breakIt := uniformInt(t, 3, "break") == 0
 	breakSec := uniformInt(t, nsec, "breakSec")
 	for i := 0; i < nsec; i++ {
@@ -59,7 +63,11 @@ func drawCodeImage(t *rapid.T, cfg rvref.Cfg) *c21Image {
 		img.secs = append(img.secs, expBlock{addr, bs})
 		addr += uint64(len(bs))
 		if uniformInt(t, 2, "gap") == 0 {
-			addr += uint64(4 * (1 + uniformInt(t, 16, "gapWords")))
+			if uniformInt(t, 3, "oddGap") == 0 {
+				addr += uint64(1 + uniformInt(t, 64, "gapBytes"))
+			} else {
+				addr += uint64(4 * (1 + uniformInt(t, 16, "gapWords")))
+			}
 		}
 	}
 	// payload = concatenated section bytes (in shuffled order to decouple file
